@@ -4,7 +4,7 @@ import json,subprocess
 checks=json.load(open('checks.json'))
 NA={
  "C01":"encode/decode round trip is a pure function of one value; there is no schedule, clock, peer or fault for a simulator to control, and generating values would be input generation dressed up as simulation",
- "C02":"decoding one byte string is a pure single-threaded function; its stream analogue (C13) is decided instead",
+ "C02":"decoding one byte string is a pure single-threaded function with no schedule, clock, peer or fault in it; its stream analogue (C13) is decided instead (two unbounded-allocation defects of the decoder did surface through C13's hostile streams and were repaired, DESIGN.md 12.7, but the for-all-bytes statement of C02 itself is not claimed)",
  "C03":"decode-encode-decode of one input is a pure function",
  "C04":"NodeID string form and equality are pure functions",
  "C14":"key derivation and direction separation are pure functions of two nonces (exercised incidentally by the reference codec, not claimed)",
@@ -52,9 +52,9 @@ m={
    "baseline_off_cmd":"cd /repo && go build ./... && go test -vet=off -count=1 ./...",
    "source_commits":[l.split()[0] for l in subprocess.run("git -C /repo log --format='%h %s' 5effd8a..HEAD",shell=True,capture_output=True,text=True).stdout.splitlines() if 'fix:' not in l],
    "add_only":True},
- "engines":[{"name":"sim","path":"/verif/sim, /verif/scen, /verif/cmd/check","serves_properties":sorted(checks.keys()),"kind_free_text":"deterministic simulation: testing/synctest bubble per run, seeded scheduler releasing one parked goroutine at a time (simhook yields at every lock and at marked race windows), simulated TCP with fault injection, 16 worker processes with GOMAXPROCS=1"}],
+ "engines":[{"name":"sim","path":"/verif/sim, /verif/scen, /verif/cmd/check","serves_properties":sorted(checks.keys()),"kind_free_text":"deterministic simulation: testing/synctest bubble per run, seeded scheduler releasing one parked goroutine at a time (scheduling points at every lock, at marked race windows and - generated from the working tree - before every plain channel send and at every goroutine start), simulated TCP with fault injection, slow-goroutine fault (a goroutine held for simulated time), on-path adversary and hostile keyed peers built on an independent reference codec, 16 worker processes with GOMAXPROCS=1; race mode: free-running -race build of the same scenarios"}],
  "checks":[],
- "notes":"one driver (bin/check) for all checks; exit 0 held / 1 VIOLATION / 2 harness or build trouble. known_findings.json lists catalogued genuine defects (open) and repaired ones (fixed). Every property is either claimed under checks or listed under not_applicable. The committed evidence files come from one sweep of every quick command under VERIF_SEED=1 after the last change to /repo and to the driver (DESIGN.md 12.6).",
+ "notes":"one driver (bin/check) for all checks; exit 0 held / 1 VIOLATION / 2 harness or build trouble. known_findings.json lists catalogued genuine defects (open) and repaired ones (fixed). Every property is either claimed under checks or listed under not_applicable. The committed evidence files come from one sweep of every quick command under VERIF_SEED=1 after the last change to /repo and to the driver (DESIGN.md 12.6). seeded/ holds 58 independently written property-breaking changes (two sub-agent waves) with their demonstrations and the result of the quick check against each (DESIGN.md 12.7).",
  "not_applicable":[{"property_id":k,"reason":v} for k,v in NA.items()]
 }
 for pid in sorted(checks):
